@@ -15,7 +15,7 @@ META = {
     "rejecting paths it proves the request was not inside the limit with margin; reported HF, max-LTV and threshold are proved equal "
     "to the definitions; helper amounts are proved accepted, bounded by the supply and tight.",
     "bounds": ["portfolio shapes of <= 3 tokens from a risk table with distinct LTV/threshold/bonus and disabled collateral/borrow flags", "scaled amounts in [1e-9,1e9], indices [1,4], prices [1e-3,1e5], requests in [0,1e10]", "margin for the completeness side 1e-9 relative"],
-    "outside": ["e-mode / isolation mode (not modelled by demeter)", "requests within 1e-9 relative of a limit", "the `ltv` view (the property names HF, max-LTV and threshold only)"],
+    "outside": ["e-mode / isolation mode (not modelled by demeter)", "histories other than: [views read] -> [a new bar with other indices and prices] -> one or two limit-bearing operations", "requests within 1e-9 relative of a limit", "the `ltv` view (the property names HF, max-LTV and threshold only)"],
     "assumptions": ["Decimal modelled as exact reals"],
 }
 REL = D("1e-25")
